@@ -698,3 +698,82 @@ def c15(ctx):
         'floor boundaries, min/max clamps, superfluous parameter entries; plus, where omission is the first bias, the decision is compared '
         'with the decision for the request with the omitted criteria deleted; distinct = (method, ordering, sizes, bias sequence)',
         './check C15')
+
+
+@check('C14')
+def c14(ctx):
+    ctx.check_proofs()
+    rnd = ctx.rnd
+    if not ctx.comp_ok:
+        ctx.notes.append('component overlay for level sources no longer compiles; falling back to the heuristics checkers only')
+    cases = []
+    if ctx.replay and 'levels_case' in ctx.replay:
+        cases = [ctx.replay['levels_case']]
+    else:
+        for _ in range(n_cases(ctx, 300, 8000)):
+            inc = rnd.random() < 0.5
+            crits = gen.gen_criteria(rnd, n=rnd.choice([1, 2, 3]))
+            cids = [c['id'] for c in crits]
+            alts = gen.gen_alternatives(rnd, cids, n=rnd.choice([1, 2, 3, 4]), style=rnd.choice(['grid', 'posgrid', 'real', 'near']))
+            if rnd.random() < 0.15:   # degenerate range
+                for a in alts:
+                    a['criteria'][cids[0]] = alts[0]['criteria'][cids[0]]
+            gen.add_ranges(rnd, crits, alts, prob=0.3)
+            k = rnd.randint(0, len(alts))
+            fn, p = gen.level_params(rnd, crits, alts, increasing=inc, explicit_prob=0.1)
+            r = rnd.random()
+            if r < 0.12 and fn != 'thresholds':   # one documented constraint violated
+                which = rnd.choice(['coefficient', 'minValue', 'maxValue'])
+                p[which] = rnd.choice([0.0, 1.0, -0.25, 1.5]) if which == 'coefficient' else rnd.choice([-0.25, 1.5, 0.0 if not inc else -1.0])
+            elif r < 0.2 and fn != 'thresholds':  # bounds given exactly, series landing on them
+                p['coefficient'], p['minValue'], p['maxValue'] = 0.25, 0.25, rnd.choice([0.75, 1.0, 0.5])
+            cases.append({'family': 'increasing' if inc else 'decreasing', 'function': fn, 'params': p, 'criteria': crits,
+                          'considered': alts[:k], 'notConsidered': alts[k:], 'max': 5000})
+    terms, keep = [], []
+    for c in cases:
+        res = ctx.pipe.call({'op': 'levels', 'args': c})
+        if not res.get('ok'):
+            ctx.violation('harness: levels op unavailable', {'broken': 'component overlay', 'answer': res}, found_input=False)
+            break
+        r = res['result']
+        st = emit.cstate_d('satisfactionHeuristic' if c['family'] == 'decreasing' else 'aspectEliminationHeuristic',
+                           {'ConsideredAlternatives': [{'Id': a['id'], 'Criteria': a['criteria']} for a in c['considered']],
+                            'NotConsideredAlternatives': [{'Id': a['id'], 'Criteria': a['criteria']} for a in c['notConsidered']],
+                            'Criteria': [{'Id': x['id'], 'Type': x.get('type', ''),
+                                          'ValuesRange': None if not x.get('valuesRange') else {'Min': x['valuesRange']['min'], 'Max': x['valuesRange']['max']}}
+                                         for x in c['criteria']],
+                            'MethodParameters': {'Function': c['function'], 'Params': c['params']}})
+        if r.get('ok') and r.get('truncated'):
+            ctx.violation('a level series does not end (more than %d levels)' % c['max'], {'levels_case': c}, {'function': c['function']})
+            continue
+        obs = 'None' if not r.get('ok') else '(Some %s)' % emit.clist(emit.cmap(t) for t in r['levels'])
+        terms.append('(mkLC %s %s %s %s %s)' % ('true' if c['family'] == 'increasing' else 'false', emit.cstr(c['function']),
+                                               emit.clparams(c['params']), st, obs))
+        keep.append((c, r))
+        n = len(r['levels']) if r.get('ok') else -1
+        ctx.seen((c['family'], c['function'], n, len(c['criteria']), r.get('ok')), trivial=(n <= 0))
+        ctx.count('levels/%s/%s' % (c['family'], c['function']))
+        ctx.count('levels/' + ('accepted' if r.get('ok') else 'rejected'))
+        ctx.sample({'levels_case': c, 'result': r}, limit=3)
+    verd, logs = core.run_cases('C14', 'judge_levels', terms)
+    broken = []
+    for (c, r), v in zip(keep, verd):
+        if v == [99]:
+            ctx.violation('case file did not evaluate', {'broken': 'Run/cases_C14', 'log': logs[:1]}, found_input=False)
+            break
+        if v[1] != 0:
+            ctx.violation('generated aspiration levels do not follow the documented series', {'levels_case': c, 'result': r,
+                          'checker': 'Check/C14.v C14_ok'}, {'function': c['function']})
+        if v[0] == 1:
+            ctx.violation('out-of-range level parameters are accepted', {'levels_case': c, 'result': r}, {'function': c['function']})
+        elif v[0] != 0:
+            broken.append((c, r, v))
+    if broken and not any(x[2] for x in ctx.violations):
+        c, r, v = broken[0]
+        ctx.violation('correspondence Model.Levels vs satisfaction-levels broken on %d of %d cases (code %s); checker still satisfied'
+                      % (len(broken), len(keep), v[0]), {'broken': 'correspondence levels', 'levels_case': c, 'result': r}, found_input=False)
+    return ctx.finish(
+        'level sources called directly (Find + Initialize + Next as wired in main.go): both families, both update rules and explicit '
+        'thresholds, dyadic parameters landing exactly on bounds, min >= max, degenerate and negative ranges, cost criteria, one '
+        'documented constraint violated in 12% of cases; distinct = (family, function, number of levels, criteria, verdict)',
+        './check C14')
